@@ -22,6 +22,25 @@ CHECKS = {
         'Print Assumptions: closed under the global context.',
    technique='Coq refinement proof (one-step simulation lifted by induction over the history) + lock-step correspondence',
    design='DESIGN.md §3 C16'),
+ 'C14': dict(
+   text='Machine-checked proof (Coq) that the model of Grid (the five primitives of grid.py, extend, reindex, and every MutableSequence/Sequence mixin written '
+        'in terms of those primitives as CPython does: reverse by swaps through __setitem__, clear by pops, pop, remove, index, count, contains) refines Python list '
+        'semantics for every operation history: same rows, same results, same exception classes; non-dict rows are refused with TypeError and change nothing; slices carry the version. '
+        'Tied to the code by a lock-step triple (extracted model / hszinc.Grid / a real Python list).',
+   note='Hypotheses of the refinement theorem: offered rows hold no 3.0-only value (version refusals are C10), operations are sequence operations (lookups are C15). '
+        'Slice assignment g[a:b]=... is not claimed (MutableSequence does not define it; Grid refuses non-dict values). CPython list primitives (index normalisation, insert clamping, '
+        'extended slices) are modelled in Model/PyList.v and tied by the correspondence. Print Assumptions: closed under the global context.',
+   technique='Coq refinement proof (swap-loop = rev, pop-loop = clear, one-step simulation lifted by induction) + lock-step correspondence',
+   design='DESIGN.md §3 C14'),
+ 'C15': dict(
+   text='Machine-checked proof (Coq) of the index invariant of Grid - whenever the id index exists it is sound and complete for the current rows - in every reachable state '
+        '(all interleavings of mutations and lookups, on the grid, on slices and on filtered grids), hence get()/[] return a row that is in the grid now with that str(id), '
+        'and the default/KeyError exactly when there is none, and raise nothing else. Tied to the code by the lock-step triple with ids of kinds str/int/Ref and colliding string forms.',
+   note='With duplicate ids any current row carrying the id is accepted (the property text does not single one out; after reindex() it is the last, C15_reindex_is_scan). '
+        'str(Ref) with a display name is modelled for display names without quotes/escapes. Rows mutated in place by the caller are out of scope (reindex() is documented for that). '
+        'Print Assumptions: closed under the global context.',
+   technique='Coq invariant proof by induction over the operation history + lock-step correspondence',
+   design='DESIGN.md §3 C15'),
 }
 PENDING = {}
 for i in range(1, 21):
